@@ -69,4 +69,30 @@ def apply (w : AW) : Op → AW
 def composeAsIs (script : List Op) (path : Path) : Option (List Hid) :=
   ((script.foldl apply {}).routes.find? (·.1 == path)).map (·.2)
 
+/-! ### `Router.Mount` as shipped (before the K02b `fix:` commit) -/
+
+/-- `mergeSubrouterRoutes` as shipped: the pending routes from the `Route` objects; and, when there are routes but
+    none is pending (the sub-router was warmed up), the registered ones read back from the sub-router's main trees
+    — whose handler slices already start with the sub-router's middleware of registration time -/
+def mountOpAsIs (w : World) (parent sub seg : Nat) (inherit : Bool) (extra : List Hid) : World :=
+  match w.routers[parent]?, w.routers[sub]? with
+  | some p, some s =>
+    let chain := (if inherit then p.mw else []) ++ s.mw ++ extra
+    let w1 := s.pending.foldl (fun w rt => w.addRouteOn parent { ver := none, path := seg :: rt.path, hs := chain ++ rt.hs }) w
+    if s.hasInfo && s.pending.isEmpty then
+      (s.tree.filter (·.ver.isNone)).foldl
+        (fun w rt => w.addRouteOn parent { ver := none, path := seg :: rt.path, hs := chain ++ rt.hs }) w1
+    else w1
+  | _, _ => w
+
+def applyMountAsIs (w : World) : Op → World
+  | .mount parent sub seg inherit extra => mountOpAsIs w parent sub seg inherit extra
+  | op => Rivaas.Compose.apply w op
+
+/-- `compose` with the as-shipped `Mount` -/
+def composeMountAsIs (script : List Op) (ver : Option Nat) (path : Path) : Option (List Hid) :=
+  match (script.foldl applyMountAsIs {}).routers[0]? with
+  | some r => findRoute (warmup r).tree ver path
+  | none => none
+
 end Rivaas.ComposeAsIs
